@@ -1,29 +1,156 @@
+#!/venv/bin/python
+"""Regenerate /verif/MANIFEST.json from the table below (only checks whose module exists are claimed)."""
 import json
-checks = {
- "C01": ("model_checking", "E-SCHED", "stateless exhaustive exploration of the real send_message coroutine on a virtual-time event loop: all incoming-message histories up to length L x all anchor-relative arrival placements (incl. both orders of ties with library timers), judged by a sequential reference scan",
-         "Every history of length <=2 over a 12-symbol alphabet (plus a pre-queued message) at every placement relative to the 0.5 s poll timer and the deadline is executed on the real code (length 3 within a deviation bound; thorough: length 3 fully, length 4 bounded); no sampling.",
-         "Trusted: the virtual loop's FIFO/timer semantics match stock asyncio (audited by re-running a subset); alphabet excludes top-level result:null and non-string ids, which are outside the function's documented contract.", "6/C01"),
+import os
+
+ROOT = os.path.dirname(os.path.dirname(os.path.abspath(__file__)))
+
+SCHED = "stateless exhaustive exploration of the real coroutines on a virtual-time asyncio loop (choice-vector DFS with prefix replay; every placement relative to library timers incl. both tie orders)"
+CHECKS = {
+    "C01": ("model_checking", "E-SCHED",
+            SCHED + "; all incoming-message histories up to length L judged by a sequential reference scan",
+            "Every history of length <=2 over a 12-symbol alphabet (plus a pre-queued message) at every placement relative to the 0.5 s poll timer and the deadline is executed on the real send_message (length 3 within a deviation bound; thorough: length 3 fully, length 4 bounded). No sampling.",
+            "Trusted: virtual loop FIFO/timer semantics match stock asyncio (determinism audited by re-running a subset in another process); top-level result:null and non-string ids are outside send_message's documented contract.", "6/C01"),
+    "C02": ("exploration", "E-INPUT",
+            "bounded-exhaustive enumeration of all discovered emitters x JSON payload grammar x id shapes, each output judged by an independent JSON-RPC 2.0 envelope reference and re-parsed by the library's parser",
+            "All emitters found by introspection (create_*, send_* helpers driven on the virtual loop, server handler, transports' serialisers) over the bounded JSON grammar and all id shapes; exhaustive within the grammar.",
+            "Trusted: the independent envelope validator vf/jsonrpc_ref.py; default (Pydantic) backend only - backend agreement is C09.", "6/C02"),
+    "C03": ("model_checking", "E-SCHED",
+            SCHED + "; full grid supported-list x preferred x server answer x answer time x distractor x tracked client",
+            "All non-empty repetition-free supported lists (<=2 quick, <=3 thorough) over a 6-version universe x 8 preferred values x 33 server answers x 3 answer times, run through the real send_initialize(+client tracking) against a scripted server.",
+            "Trusted: virtual loop; which of the two error classes a code maps to is C07's subject.", "6/C03"),
+    "C04": ("exploration", "E-INPUT + E-SCHED pairing",
+            "exhaustive enumeration of requested protocolVersion values (full date grid) against the real ProtocolHandler, plus every client-list x preferred pairing of the real send_initialize with the real handler over in-memory streams on the virtual loop",
+            "Every dddd-dd-dd string in the window, malformed strings, non-strings, absent; every client supported list x preferred for the end-to-end handshake.",
+            "Trusted: virtual loop for the pairing part; the library's own supported-version list is read from the code.", "6/C04"),
+    "C05": ("fault_enumeration", "E-SCHED",
+            "exhaustive enumeration of chunk-cut positions (the fault) over all line sequences of a bounded alphabet, real StdioClient reader on the virtual loop over a scripted process; oracle = split-at-LF reference + independent envelope validator",
+            "All sequences of <=2 lines (thorough; quick 1 + interesting cuts of 2) over 15 line kinds x LF/CRLF, every single cut position, every pair of cuts on short streams, every pair with a cut inside a multi-byte character or CRLF on long ones; thorough adds triples and byte-at-a-time.",
+            "Trusted: scripted process implements the subset of anyio.abc.Process the transport uses; lines with wrong/missing jsonrpc member are outside the alphabet (suite pins them accepted).", "6/C05"),
+    "C06": ("fault_enumeration", "E-SCHED",
+            "exhaustive enumeration of outbound item sequences (typed / dict / pre-serialised / unserialisable at every position) through the real stdio writer on the virtual loop; stdin bytes compared with an independently computed expectation",
+            "All sequences of <=3 (thorough 4) items over 14 item kinds x {burst, stepwise}, plus every JSON value of the bounded grammar as payload in three shapes.",
+            "Trusted: scripted process stdin; pre-serialised strings are compact single JSON texts.", "6/C06"),
+    "C07": ("exploration", "E-INPUT",
+            "exhaustive enumeration of error codes x error shapes through the real send_message and every discovered send_* helper on the virtual loop, against pinned copies of the documented code sets",
+            "Every integer in -33100..-31900 and -200..200 plus 32/64-bit boundaries x 10 error shapes; every typed request helper discovered by walking the package.",
+            "Trusted: the pinned permanent/retryable sets inside the check (copied from the documentation).", "6/C07"),
+    "C08": ("exploration", "E-INPUT",
+            "full product enumeration methods x ids x params shapes x handler behaviours through the real MCPServer/ProtocolHandler; oracle = one response per id-bearing message, none otherwise, never raises",
+            "Full product of the bounded grammar (core, tool/resource, every notifications/* name, unknown methods; 8 id shapes; params shapes; handler behaviours).",
+            "Trusted: independent envelope validator; inputs the library's parser rejects are counted, not judged.", "6/C08"),
+    "C09": ("exploration", "E-INPUT workers",
+            "bounded-exhaustive type-directed wire objects for every discovered model class, fed to two long-lived worker processes (Pydantic / MCP_FORCE_FALLBACK=1) and compared relationally (accept, type names at every level, by-alias dump)",
+            "All 65 discovered McpPydanticBase subclasses x generated wire objects (all optional-field subsets for small models, pairwise covering above), JSON-RPC envelopes x all id shapes, documented invariants.",
+            "Trusted: worker pipe codec (type-tagged); a case is spec-valid when generated type-correctly and accepted by Pydantic.", "6/C09"),
+    "C10": ("exploration", "E-INPUT workers",
+            "bounded-exhaustive wire objects per model x both backends for losslessness; AST discovery of every library-side serialiser site, each driven and its output inspected for wire names",
+            "All model classes x generated wire objects x 2 backends; all 14 discovered serialiser call sites (a site without driver is a harness error).",
+            "Trusted: wire names are read from the classes' declared aliases (a consistent alias rename is invisible).", "6/C10"),
+    "C11": ("fault_enumeration", "E-SCHED",
+            "exhaustive enumeration of per-request server behaviours (the fault) and of behaviour sequences through the real http_client on the virtual loop over a scripted httpx transport; oracle = independent behaviour->acceptable-read-stream function with a reference SSE parser",
+            "157 single behaviours x 4 request kinds x session header, each followed by a plain request; all sequences <=3 (thorough 4) over 12 representatives; all session sequences <=4.",
+            "Trusted: httpx above its transport layer is real; timeouts modelled as httpx.ReadTimeout.", "6/C11"),
+    "C12": ("fault_enumeration", "E-SCHED",
+            SCHED + "; establishment outcomes, per-request modes x orderings of POST completion / event arrival / timeout, event-stream chunkings, exit paths",
+            "All establishment outcomes, all request modes x orderings from the time menu, all single and pair cuts of the event stream, all exit paths x moments.",
+            "Trusted: scripted httpx transport and streamed body; virtual loop.", "6/C12"),
+    "C13": ("model_checking", "E-INPUT + E-STATE",
+            "exhaustive date grid for the decision function; explicit-state BFS over operation sequences on the real StdioClient with a reference mode model",
+            "All 2.1M dddd-dd-dd strings; all operation sequences to the stated depth over {set version, deliver batch, deliver single}.",
+            "Trusted: scripted process; canonical state = negotiated version (the only field the reader consults).", "6/C13"),
+    "C14": ("model_checking", "E-SCHED",
+            SCHED + "; all placements of {cancel, response} on a 10 ms grid around every poll boundary and the deadline x traffic patterns x progress streams, judged by a relation stating exactly what the property promises",
+            "Every (cancel, response) placement on the grid for T in {0.3,1.0,1.2} (thorough +2.2) x {none, burst, flood every 10 ms}; every progress stream of <=3 (thorough 4) notifications x callback failure position x ending.",
+            "Trusted: virtual loop; where the statement leaves the outcome open (response within one poll after cancel; ties at the deadline) both outcomes are accepted.", "6/C14"),
+    "C15": ("exploration", "E-SCHED differential",
+            "exhaustive enumeration of scripted conversations, each run through the four real client transports on the virtual loop; normalised transcripts compared pairwise and against the script",
+            "All conversations of <=2 (thorough 3) requests over the conversation grammar x 4 carriers.",
+            "Trusted: each carrier is fed its canonical encoding (framing/encoding variants are C05/C11/C12's subject).", "6/C15"),
+    "C16": ("fault_enumeration", "E-SCHED + real children",
+            "full fault matrix child behaviour x exit path x moment (x anyio cancellation delivery order x grace-period boundary timings) on the virtual loop over a scripted process, plus the same matrix with real child processes observed through /proc",
+            "Virtual: 13 behaviours x 5 exit paths x 3 moments x 2 cancel orders + 36 (terminate,kill) obedience-delay pairs; real: 10 behaviours x 5 exits x moments (quick: in-flight + normal exits).",
+            "Trusted: scripted process for timing/escalation; OS facts (gone, reaped, fds) from the real part with 3 s wall-clock slack.", "6/C16"),
+    "C17": ("exploration", "E-INPUT workers",
+            "bounded-exhaustive JSON value grammar encoded/decoded by worker processes with orjson importable / masked, all four backend pairs compared type-strictly",
+            "All values of the bounded grammar (depth<=2 quick, <=3 thorough) over the boundary scalar set x every encode/decode API variant x 4 backend pairs.",
+            "Trusted: type-tagged pipe codec; integers beyond 64 bits are outside the property.", "6/C17"),
+    "C18": ("model_checking", "E-SCHED",
+            SCHED + "; k concurrent send_message callers, every answer order, every interleaving with notifications, every placement from the time menu",
+            "k=2 with <=2 notifications (rich menu), k=3 with <=1 (thorough 2) notifications, thorough k=4; equal/unequal timeouts; simultaneous/staggered starts.",
+            "Trusted: virtual loop; the structural loss class consumed-by-other-waiter is an open known finding, every other loss class and cross-talk alarm.", "6/C18"),
+    "C19": ("model_checking", "E-STATE",
+            "explicit-state breadth-first search over operation histories on the real SessionManager/ProtocolHandler with a reference dict model in lock-step and canonical-state deduplication",
+            "All operation sequences to depth 5 (thorough 7-8) over a 3-client universe with a controlled clock.",
+            "Trusted: canonical state replaces opaque ids by issue index (no operation inspects id characters).", "6/C19"),
+    "C20": ("exploration", "E-INPUT real children",
+            "complete enumeration of a bounded configuration grammar x three host entry points, executed with real witness child processes",
+            "All generated configs (servers, args, env, timeout, extra keys) x {load_config+stdio_client, CLI connectivity test, run_command} x malformed classes.",
+            "Trusted: the witness child records argv/env; OS scheduling is not controlled (every case is run, none sampled).", "6/C20"),
 }
-m = {
- "version": 1,
- "setup_cmd": "/venv/bin/python -c \"import sys; sys.path[:0]=['/repo/src','/verif']; import chuk_mcp, anyio, httpx, vf.vloop, vf.explorer; print('ok')\"",
- "hooks": {"guard": "CHUK_MCP_VERIF", "enable": "checks import /repo/src directly (PYTHONPATH) with CHUK_MCP_VERIF=1 exported by ./check; no source hooks exist - all seams are external substitutions (anyio.open_process, httpx transport, uuid.uuid4, session clock)",
-           "baseline_off_cmd": "cd /repo && /venv/bin/python -m pytest -ra -q -p no:cacheprovider --timeout=900 --continue-on-collection-errors",
-           "source_commits": [], "add_only": True},
- "engines": [
-  {"name": "E-SCHED", "path": "vf/vloop.py, vf/explorer.py, vf/sched.py", "serves_properties": ["C01"], "kind_free_text": "virtual-time asyncio loop + stateless choice-vector DFS explorer with prefix replay, deviation bounds, determinism audit, 16-process pool"},
- ],
- "checks": [],
- "notes": "See DESIGN.md. ./check <ID> --tier quick|thorough; exit 0 held / 1 VIOLATION / 2 harness error.",
- "not_applicable": [],
-}
-allp = [json.loads(l)["id"] for l in open("/verif/properties.jsonl")]
-for pid in allp:
-    if pid in checks:
-        cat, eng, tech, text, note, ref = checks[pid]
-        m["checks"].append({"property_id": pid, "quick_cmd": f"./check {pid} --tier quick", "thorough_cmd": f"./check {pid} --tier thorough",
-            "evidence_file": f"/verif/evidence/{pid}.json", "replay_cmd_template": f"./check {pid} --replay {{path}}", "engine": eng,
-            "level_claimed": {"category": cat, "text": text, "design_ref": ref}, "level_note": note, "technique": tech})
-    else:
-        m["not_applicable"].append({"property_id": pid, "reason": "check not built yet in this round (planned: bounded exhaustive exploration, see DESIGN.md section 6)"})
-json.dump(m, open("/verif/MANIFEST.json", "w"), indent=1)
+
+# checks integrated, reviewed and silent on the unchanged tree (others are still being built)
+READY = "C01 C03 C05 C06 C09 C10 C11 C14 C16 C17 C18".split()
+
+ENGINES = [
+    {"name": "E-SCHED", "path": "vf/vloop.py, vf/explorer.py, vf/sched.py, vf/determinism.py, vf/seams.py, vf/seams_http.py",
+     "kind_free_text": "virtual-time asyncio loop + stateless choice-vector DFS explorer with prefix replay, deviation bounds, determinism audit, 16-process pool; scripted process / scripted HTTP seams; anyio task-set order owned"},
+    {"name": "E-STATE", "path": "vf/checks/c19.py, vf/checks/c13.py",
+     "kind_free_text": "explicit-state BFS over operation histories on freshly rebuilt real objects with a reference model in lock-step"},
+    {"name": "E-INPUT", "path": "vf/gen.py, vf/wiregen.py, vf/workers.py, vf/jsonrpc_ref.py",
+     "kind_free_text": "bounded-exhaustive deterministic generators; configuration-specific long-lived worker processes for relational (backend) properties"},
+]
+
+
+def main():
+    props = [json.loads(l) for l in open(os.path.join(ROOT, "properties.jsonl"))]
+    m = {
+        "version": 1,
+        "setup_cmd": "/venv/bin/python -c \"import sys; sys.path[:0]=['/repo/src','/verif']; import chuk_mcp, anyio, httpx, vf.vloop, vf.explorer; print('ok')\"",
+        "hooks": {
+            "guard": "CHUK_MCP_VERIF",
+            "enable": "checks import /repo/src of the current working tree directly (PYTHONPATH set by ./check, which also exports CHUK_MCP_VERIF=1); there are no source hooks - every seam is an external substitution (anyio.open_process, httpx.AsyncHTTPTransport, uuid.uuid4, session clock, anyio CancelScope task sets)",
+            "baseline_off_cmd": "cd /repo && /venv/bin/python -m pytest -ra -q -p no:cacheprovider --timeout=900 --continue-on-collection-errors",
+            "source_commits": [],
+            "add_only": True,
+        },
+        "engines": [],
+        "checks": [],
+        "notes": "See DESIGN.md. ./check <ID> --tier quick|thorough [--replay file]; exit 0 held (possibly with KNOWN-FINDING lines) / 1 VIOLATION / 2 HARNESS-ERROR. known_findings.json lists open findings (suppressed, narrow keys) and fixed ones (suppress nothing).",
+        "not_applicable": [],
+    }
+    claimed = []
+    for p in props:
+        pid = p["id"]
+        mod = os.path.join(ROOT, "vf", "checks", pid.lower() + ".py")
+        if pid in CHECKS and pid in READY and os.path.exists(mod):
+            cat, eng, tech, text, note, ref = CHECKS[pid]
+            claimed.append(pid)
+            m["checks"].append({
+                "property_id": pid,
+                "quick_cmd": f"./check {pid} --tier quick",
+                "thorough_cmd": f"./check {pid} --tier thorough",
+                "evidence_file": f"/verif/evidence/{pid}.json",
+                "replay_cmd_template": f"./check {pid} --replay {{path}}",
+                "engine": eng,
+                "level_claimed": {"category": cat, "text": text, "design_ref": ref},
+                "level_note": note,
+                "technique": tech,
+            })
+        else:
+            m["not_applicable"].append({
+                "property_id": pid,
+                "reason": "not claimed yet: the bounded exhaustive check designed in DESIGN.md section 6 is still being built (the technique applies)",
+            })
+    for e in ENGINES:
+        e = dict(e)
+        e["serves_properties"] = [c["property_id"] for c in m["checks"] if c["engine"].startswith(e["name"])]
+        m["engines"].append(e)
+    with open(os.path.join(ROOT, "MANIFEST.json"), "w") as f:
+        json.dump(m, f, indent=1)
+        f.write("\n")
+    print("claimed:", " ".join(claimed))
+
+
+if __name__ == "__main__":
+    main()
